@@ -20,17 +20,20 @@ type stubFn func(ex *Exec, caller *frame, fn *ssa.Function, args []Value) Value
 const olricPath = "github.com/olric-data/olric"
 
 func skipInit(path string) bool {
-	switch {
-	case strings.HasPrefix(path, olricPath):
-		return false
-	}
+	// Package initialisers run lazily (on first access to one of the package's globals) and tolerantly. A few
+	// packages are never initialised: their globals are runtime/OS state or large tables irrelevant to the code under
+	// test, and their functions are stubbed or never reached.
 	switch path {
-	case "io", "errors", "io/fs", "context", "strconv", "github.com/pkg/errors", "os", "syscall", "net",
-		"github.com/redis/go-redis/v9", "github.com/redis/go-redis/v9/internal/proto", "github.com/tidwall/redcon",
-		"github.com/redis/go-redis/v9/internal/pool", "github.com/vmihailenco/msgpack/v5", "time", "sort", "unicode/utf8":
-		return false
+	case "runtime", "reflect", "unicode", "os", "syscall", "net", "unsafe", "sync", "sync/atomic", "time", "math/rand", "crypto/rand",
+		"log", "fmt", "testing", "flag", "net/http", "crypto/tls", "encoding/json", "regexp", "regexp/syntax", "unicode/utf8":
+		return true
 	}
-	return true
+	for _, pre := range []string{"runtime/", "internal/", "crypto/", "golang.org/x/sys", "github.com/hashicorp/memberlist", "github.com/hashicorp/go-", "github.com/armon/", "google.golang.org/", "golang.org/x/net"} {
+		if strings.HasPrefix(path, pre) {
+			return true
+		}
+	}
+	return false
 }
 
 func (e *Engine) lookupStub(fn *ssa.Function, name string) stubFn {
@@ -1281,6 +1284,18 @@ func buildStubs() map[string]stubFn {
 		panic(engineErr("Float32frombits of symbolic"))
 	}
 
+	for name, f := range map[string]func(float64) float64{"math.Ceil": math.Ceil, "math.Floor": math.Floor, "math.Trunc": math.Trunc, "math.Abs": math.Abs, "math.Sqrt": math.Sqrt, "math.Round": math.Round} {
+		f := f
+		name := name
+		m[name] = func(ex *Exec, c *frame, fn *ssa.Function, a []Value) Value {
+			t := a[0].(*Term)
+			if !t.IsConst() {
+				panic(engineErr("%s of a symbolic float", name))
+			}
+			return ex.tc.FConst(WF64, f(t.FVal()))
+		}
+	}
+
 	// ---- sort (insertion sort with the real less closure: what the stdlib runs for n <= 12)
 	m["sort.Slice"] = func(ex *Exec, c *frame, fn *ssa.Function, a []Value) Value {
 		iv := a[0].(IfaceV)
@@ -1692,6 +1707,7 @@ func buildStubs() map[string]stubFn {
 		ex.extra[fmt.Sprintf("redisAddr:%p", p)] = addr
 		return p
 	}
+	m["(*"+olricPath+"/internal/server.Client).Close"] = func(ex *Exec, c *frame, fn *ssa.Function, a []Value) Value { return ex.nilError() }
 	m["(*"+rp9+".hooksMixin).AddHook"] = stubNoop
 	m["(*"+rp9+".Client).AddHook"] = stubNoop
 	m["(*"+rp9+".Client).Process"] = func(ex *Exec, c *frame, fn *ssa.Function, a []Value) Value {
@@ -1781,6 +1797,13 @@ func buildStubs() map[string]stubFn {
 		}
 		return &StrV{b: out}
 	}
+
+	xx := func(ex *Exec, c *frame, fn *ssa.Function, a []Value) Value {
+		// a hash of opaque payloads only serves as a change signature: arbitrary value
+		return ex.newEnvVar("xxhash", 64)
+	}
+	m["github.com/cespare/xxhash/v2.Sum64"] = xx
+	m["github.com/cespare/xxhash/v2.Sum64String"] = xx
 
 	// ---- regexp: abstract predicate (one arbitrary Bool per distinct concrete key per expression)
 	m["regexp.Compile"] = func(ex *Exec, c *frame, fn *ssa.Function, a []Value) Value {
